@@ -114,6 +114,11 @@ def units(tier, seed):
                 for icpt in (True, False):
                     block.append({"terms": [t1, t2], "icpt": icpt, "lv": {"f": 3}, "reps": 4})
     u.append(block)
+    # ordered families of three terms with two numeric parts (interleaved numeric groups)
+    mixed = [["f", "x"], ["g", "z"], ["f", "g", "x"], ["f", "z"], ["g", "x"], ["f", "g", "z"], ["x"], ["z"], ["f"], ["x", "z"]]
+    trip = [list(p) for p in itertools.permutations(mixed, 3)]
+    for i in range(0, len(trip), 90):
+        u.append([{"terms": t, "icpt": icpt, "lv": {"f": 3, "g": 2}, "reps": 4} for t in trip[i : i + 90] for icpt in (True, False)])
     if tier == "thorough":
         short = [t for t in tuples if len(t) <= 2]
         for t1 in short:
@@ -215,6 +220,15 @@ def check_case(case, acc):
     f = formula_of(case)
     acc.calls += 1
     acc.traces += 1
+    if case.get("sub"):
+        # not from the initial state: the same formula text was used before on another data set
+        try:
+            other = frame_for(case["lv"], 3).copy()
+            other["x"] = other["x"] * 2 + 30
+            design_matrices(f, other)
+            acc.calls += 1
+        except Exception:
+            pass
     try:
         dm = design_matrices(f, df)
         X = np.asarray(dm.common.design_matrix, dtype=float)
